@@ -1,6 +1,8 @@
 package keeper
 
 import (
+	"strings"
+
 	errorsmod "cosmossdk.io/errors"
 	sdk "github.com/cosmos/cosmos-sdk/types"
 	errortypes "github.com/cosmos/cosmos-sdk/types/errors"
@@ -120,8 +122,10 @@ func (k Keeper) CreateCoinMetadata(
 				Exponent: 0,
 			},
 		},
-		Name:    types.CreateDenom(strContract),
-		Symbol:  erc20Data.Symbol,
+		Name: types.CreateDenom(strContract),
+		// the symbol is whatever bytes the contract returns: an exported genesis is JSON, which cannot carry
+		// invalid UTF-8 (the exporter replaces it, so the re-imported chain would store another symbol)
+		Symbol:  strings.ToValidUTF8(erc20Data.Symbol, "\uFFFD"),
 		Display: base,
 	}
 
